@@ -68,8 +68,20 @@ def check_property(pid, tier, seed):
         allowed = set(prop.allowed_axioms)
         bad_axioms = [a for a in axioms if a.split(' ')[0] not in allowed]
         missing_print = [t for t in theorems if t not in printed]
+        from . import pin
+        pins = pin.load()
+        pin_problem = None
+        for pf in getattr(prop, 'props_files', [pid]):
+            if pf not in pins:
+                pin_problem = 'props/%s.v is not pinned (run python3 -m tools.pin after review)' % pf
+            else:
+                cur = pin.current(pf)
+                if cur['sha256'] != pins[pf]['sha256']:
+                    pin_problem = 'props/%s.v differs from its pinned statement text (theorems now: %s)' % (pf, ','.join(cur['theorems']))
         if hits:
             proof_problem = 'forbidden keyword in development: ' + '; '.join(hits[:5])
+        elif pin_problem:
+            proof_problem = pin_problem
         elif bad_axioms:
             proof_problem = 'assumptions outside allow-list: ' + '; '.join(bad_axioms[:5])
         elif missing_print or len(blocks) != len(printed):
